@@ -185,6 +185,18 @@ CLAIMED["C19"] = dict(
     note=_NOTE + " Needs the `robotics` feature: decided in the `full` (quick) and `robotics` (thorough) configurations.",
     technique="static analysis: recursion-cycle census with guard dominance, enter/exit pairing, limit-compare and loop-progress (SCC) rules on MIR")
 
+CLAIMED["C18"] = dict(
+    level=("Static decision of the structural clauses in the configurations that enable garde / validator: each of the 8 validating "
+           "entry points attaches a path recorder to the root deserializer, validates before every success result, builds the "
+           "validation error from that document's recorder map; stream variants collect failures without returning inside the loop "
+           "and build the aggregate after finish(); validating iterators neither end nor skip after a validation failure; all plain "
+           "protocol steps (options threaded, scope, finish, second-document check) hold for them as for the plain entries; the three "
+           "path-segment pushes inside the deserializer are popped on every path to return, and the recorded pair is the element's "
+           "own (use-site, definition-site). Not decided: that paths resolve to the right positions for every rename / alias / merge "
+           "shape (PathMap::search)."),
+    note=_NOTE + " Needs `garde` / `validator`: decided in the `full` (quick) and `garde`, `validator` (thorough) configurations.",
+    technique="static analysis: sibling agreement over the entry-point protocol, must-not-return-in-loop reachability, save/restore path search on MIR")
+
 NOT_APPLICABLE = {("C%02d" % i): _NB for i in range(1, 21) if ("C%02d" % i) not in CLAIMED}
 
 CLAIMED["C10"] = dict(
@@ -353,5 +365,17 @@ CLAIMED["C19"] = dict(
            "the option the plain str::parse path is taken. Not decided: IEEE-754 exactness, precedence, unit arithmetic."),
     note=_NOTE + " Needs the `robotics` feature: decided in the `full` (quick) and `robotics` (thorough) configurations.",
     technique="static analysis: recursion-cycle census with guard dominance, enter/exit pairing, limit-compare and loop-progress (SCC) rules on MIR")
+
+CLAIMED["C18"] = dict(
+    level=("Static decision of the structural clauses in the configurations that enable garde / validator: each of the 8 validating "
+           "entry points attaches a path recorder to the root deserializer, validates before every success result, builds the "
+           "validation error from that document's recorder map; stream variants collect failures without returning inside the loop "
+           "and build the aggregate after finish(); validating iterators neither end nor skip after a validation failure; all plain "
+           "protocol steps (options threaded, scope, finish, second-document check) hold for them as for the plain entries; the three "
+           "path-segment pushes inside the deserializer are popped on every path to return, and the recorded pair is the element's "
+           "own (use-site, definition-site). Not decided: that paths resolve to the right positions for every rename / alias / merge "
+           "shape (PathMap::search)."),
+    note=_NOTE + " Needs `garde` / `validator`: decided in the `full` (quick) and `garde`, `validator` (thorough) configurations.",
+    technique="static analysis: sibling agreement over the entry-point protocol, must-not-return-in-loop reachability, save/restore path search on MIR")
 
 NOT_APPLICABLE = {("C%02d" % i): _NB for i in range(1, 21) if ("C%02d" % i) not in CLAIMED}
